@@ -10,7 +10,7 @@ import time
 
 ROOT = os.path.dirname(os.path.dirname(os.path.abspath(__file__)))
 SPEC = os.path.join(ROOT, "spec")
-OUT = os.path.join(ROOT, "out")
+OUT = os.environ.get("VERIF_OUT") or os.path.join(ROOT, "out")      # mutant runs use their own scratch tree
 HARNESS = os.path.join(ROOT, "harness")
 RECORDER = os.path.join(HARNESS, "target", "release", "recorder")
 JAR = "/opt/veriftools/tla/tla2tools.jar:/opt/veriftools/tla/CommunityModules-deps.jar"
